@@ -325,6 +325,7 @@ structure SchedSt where
   armed  : List Nat := []
   active : List Nat := []
   acc    : List (Nat × Nat) := []
+  gx     : List Nat := []       -- keys whose next callback calls runtime.Goexit (`boom k goexit`)
   late   : List String := []    -- requests of the callbacks of an `ltick`, received during the next operation
 
 def rqTok : Call → String
@@ -341,6 +342,7 @@ def insertStr (x : String) : List String → List String
 inductive SOp where
   | hold (k : Nat)
   | release (k : Nat)
+  | boomGx (k : Nat)    -- the next callback of k calls runtime.Goexit: in a tick the goroutine of the whole batch ends there
   | boom (k : Nat)      -- the next callback of k panics: recovered by RunSafe / GoSafe / the task runner, nothing else changes
   | calls (cs : List Call) (res : List String) (sortRq : Bool) (cache' : CacheL)
   | ltick
@@ -353,7 +355,8 @@ def parseFetch (s : String) : Option (Fetch × String) :=
 def parseSched (isCache : Bool) (c : CacheL) : List String → Option SOp
   | ["hold", k] => k.toNat?.map .hold
   | ["release", k] => k.toNat?.map .release
-  | ["boom", k, kind] => if kind = "err" ∨ kind = "str" then k.toNat?.map .boom else none
+  | ["boom", k, kind] => if kind = "err" ∨ kind = "str" then k.toNat?.map .boom
+      else if kind = "goexit" then k.toNat?.map .boomGx else none
   | ["tick"] => some (.calls [.tick] [] true c)
   | ["ltick"] => some .ltick
   | op =>
@@ -389,6 +392,11 @@ def parseSched (isCache : Bool) (c : CacheL) : List String → Option SOp
       | some call => some (.calls [call] [] false c)
       | none => none
 
+/-- the part of a tick's batch (in the order of the slot) that reaches its callback when the callbacks of `gx` call Goexit. -/
+def cutAtGoexit (gx : List Nat) : List (Nat × Nat) → List (Nat × Nat)
+  | [] => []
+  | x :: xs => if gx.contains x.1 then [x] else x :: cutAtGoexit gx xs
+
 /-- one line of a sched section over the wheel model or the timer table: new state and the observation. -/
 def schedCalls {T : Type} (ts : TStep T) (isCache : Bool) (a : ApiG T) (st : SchedSt)
     (cs : List Call) (res : List String) (sortRq : Bool) (cache' : CacheL) : ApiG T × SchedSt × String × List (Nat × Nat) :=
@@ -404,25 +412,30 @@ def schedCalls {T : Type} (ts : TStep T) (isCache : Bool) (a : ApiG T) (st : Sch
     if x.2.2 = .ok then (match x.2.1 with | .tick => none | c => some (rqTok c)) else none
   let rq := st.late ++ i.2.2.filterMap okTok ++ q.inner.filterMap okTok
   let rq := if sortRq then rq.foldr insertStr [] else rq
-  let armedFired := st.armed.filter fun k => q.fired.any (·.1 = k)
+  -- runTasks walks the batch of a tick on ONE goroutine: a callback that calls Goexit ends it (Deliver.lean,
+  -- goexit_loses_the_rest_of_its_tick); Drain and the immediate MoveTimer run every callback on a goroutine of its own
+  let fired := if cs = [.tick] then cutAtGoexit st.gx q.fired else q.fired
+  let armedFired := st.armed.filter fun k => fired.any (·.1 = k)
   let active := st.active ++ armedFired
-  let acc := st.acc ++ q.fired
+  let acc := st.acc ++ fired
   let out := if active.isEmpty then (if acc.isEmpty then [] else [canon acc]) else ["held"]
   let has := if isCache then
       ["has=" ++ (if q.cb.data.isEmpty then "-" else ",".intercalate (((q.cb.data.map (·.1)).foldr insertNat []).map toString))]
     else []
   let fuel := if q.left.isEmpty then [] else ["FUEL"]
   let toks := res ++ errs ++ (if rq.isEmpty then [] else ["rq=" ++ ",".intercalate rq]) ++ out ++ has ++ fuel
-  (q.api, { cache := q.cb, armed := st.armed.filter (fun k => !q.fired.any (·.1 = k)), active := active,
+  (q.api, { cache := q.cb, armed := st.armed.filter (fun k => !fired.any (·.1 = k)), active := active,
+            gx := st.gx.filter (fun k => !fired.any (·.1 = k)),
             acc := if active.isEmpty then [] else acc, late := [] },
-   (if toks.isEmpty then "-" else joinSp toks), q.fired)
+   (if toks.isEmpty then "-" else joinSp toks), fired)
 
 def schedStep {T : Type} (ts : TStep T) (isCache : Bool) (a : ApiG T) (st : SchedSt) :
     SOp → ApiG T × SchedSt × String × List (Nat × Nat)
   | .hold k =>
     if st.active.isEmpty then (a, { st with armed := if st.armed.contains k then st.armed else st.armed ++ [k] }, "armed", [])
     else (a, st, "busy", [])
-  | .boom _ => (a, st, "armed", [])
+  | .boom k => (a, { st with gx := st.gx.filter (· ≠ k) }, "armed", [])    -- replaces an earlier `boom k goexit`
+  | .boomGx k => (a, { st with gx := if st.gx.contains k then st.gx else st.gx ++ [k] }, "armed", [])
   | .release k =>
     schedCalls ts isCache a { st with armed := st.armed.filter (· ≠ k), active := st.active.filter (· ≠ k) } [] [] true st.cache
   | .calls cs res sortRq cache' => schedCalls ts isCache a st cs res sortRq cache'
@@ -443,6 +456,7 @@ def schedCover (isCache : Bool) (st : SchedSt) (op : List String) (sop : SOp) (f
   (match sop with
    | .hold _ => [if st.active.isEmpty then "sched-hold-armed" else "sched-hold-while-held"]
    | .boom _ => ["sched-callback-panics-" ++ op.getD 2 ""]
+   | .boomGx _ => ["sched-callback-goexit-armed"]
    | .ltick => ["sched-lazy-tick-replay-only"]
    | .release k =>
      (if st.active.contains k then ["sched-release-held"] else if st.armed.contains k then ["sched-release-armed-not-reached"] else ["sched-release-idle"]) ++
@@ -454,6 +468,10 @@ def schedCover (isCache : Bool) (st : SchedSt) (op : List String) (sop : SOp) (f
         (if op = ["tick"] ∧ fired.length ≥ 2 then ["sched-tick-fires-2+-while-held"] else []) ++
         (if op = ["drain"] ∧ fired.length ≥ 1 then ["sched-drain-while-held"] else [])
       else []) ++
+     (if op = ["tick"] ∧ after.gx.length < st.gx.length then
+        ["sched-goexit-in-tick"] ++ (if (st.gx.length - after.gx.length) + 0 ≥ 1 ∧ fired.length ≥ 2 then ["sched-goexit-in-batch-of-2+-delivered"] else [])
+      else []) ++
+     (if op = ["drain"] ∧ after.gx.length < st.gx.length then ["sched-goexit-in-drain"] else []) ++
      (if st.active.isEmpty ∧ ¬ after.active.isEmpty then
         [if op = ["drain"] then "sched-drain-callback-held" else "sched-tick-callback-held"] ++
         (if fired.length ≥ 2 then ["sched-held-in-batch-of-2+"] else [])
